@@ -661,6 +661,10 @@ func (b *bitstream) ReadTimestamp() (Timestamp, error) {
 		}
 	}
 
+	if precision == TimestampNoPrecision {
+		return Timestamp{}, &SyntaxError{"invalid timestamp - year is missing", b.pos}
+	}
+
 	nsecs := 0
 	overflow := false
 	fractionPrecision := uint8(0)
